@@ -262,3 +262,40 @@ func TestPool(t *testing.T) {
 		t.Fatalf("hits %d", hits)
 	}
 }
+
+// A check-then-act over two atomic operations: both outcomes (the last index
+// claimed once, or claimed twice) must be reachable, and a seed decides which.
+func TestAtomicInterleaving(t *testing.T) {
+	claims := map[int]int{}
+	for seed := uint64(0); seed < 200; seed++ {
+		body := func(out *int) func() {
+			return func() {
+				var next int64
+				var calls Int64
+				var wg WaitGroup
+				for w := 0; w < 2; w++ {
+					wg.Add(1)
+					Go(1, func() {
+						defer wg.Done()
+						for LoadInt64(&next) < 3 {
+							AddInt64(&next, 1)
+							calls.Add(1)
+						}
+					})
+				}
+				wg.Wait()
+				*out = int(calls.Load())
+			}
+		}
+		var n1, n2 int
+		o1 := run(seed, Policy(seed%4), body(&n1))
+		o2 := run(seed, Policy(seed%4), body(&n2))
+		if o1.Verdict != VOK || o1.Hash != o2.Hash || n1 != n2 {
+			t.Fatalf("seed %d: %v %s; hashes %x %x; calls %d %d", seed, o1.Verdict, o1.Msg, o1.Hash, o2.Hash, n1, n2)
+		}
+		claims[n1]++
+	}
+	if claims[3] == 0 || claims[4] == 0 {
+		t.Fatalf("calls made over 200 seeds: %v; want both 3 and 4", claims)
+	}
+}
